@@ -266,7 +266,13 @@ def proof_status(prop, br, rundir, extra_files=()):
                         continue
                     problems.append("forbidden vernacular %r in %s" % (m.group(0), os.path.join(dp, f)))
                     break
-    if not os.path.exists(vo) or os.path.getmtime(vo) < os.path.getmtime(src):
+    stale = False
+    if not getattr(br, "coq_ok", True) and os.path.exists(vo):
+        # some file failed to compile: an older Props/Cxx.vo may still lie there; ask make whether it is up to date
+        # with respect to ALL its dependencies (regenerated Gen/*.v included)
+        rc_q, _, _ = sh(["make", "-q", "theories/Props/%s.vo" % prop], cwd=COQ, timeout=300)
+        stale = rc_q != 0
+    if stale or not os.path.exists(vo) or os.path.getmtime(vo) < os.path.getmtime(src):
         problems.append("Props/%s.vo not built (proof or dependency failed)" % prop)
         failed = [f for f in br.coq_failed_files]
         if failed:
